@@ -43,7 +43,7 @@ static int zv_join(pthread_t t);
 #define ZSTD_pthread_cond_broadcast(a) zv_broadcast(a)
 #define ZSTD_pthread_create(a, b, c, d) zv_create((a), (b), (c), (d))
 #define ZSTD_pthread_join(a) zv_join(a)
-#include "../../repo/lib/common/pool.c"
+#include "pool.c"   /* found through -I<repo>/… (tools/build.py), so that ZV_REPO can point at another checkout */
 
 /* ---- log ---- */
 static pthread_mutex_t g_log = PTHREAD_MUTEX_INITIALIZER;
